@@ -233,9 +233,16 @@ Definition api_close (bs : nat) (a : api) : api * list inv * Z :=
   | _ => api_close_core bs a
   end.
 
-(* [fc] : archive_write_client_free releases a client filter that is still open (false for the
-   pinned tree; Gen/WriteCore.v: client_free_closes_open_client, read from the source on every run) *)
-Definition api_step (fc : bool) (bs : nat) (a : api) (o : op) : api * list inv * Z :=
+(* What archive_write_free does with a handle in state FATAL (read from the source on every run,
+   Gen/WriteCore.v, and handed to the model by WriteCoreRun.v):
+     FreeSkips          : nothing is closed (the pinned snapshot): an open client filter leaks
+     FreeClientReleases : archive_write_client_free releases a still-open client without writing
+     FreeClosesFilters  : _archive_write_free runs __archive_write_filters_close (current tree):
+                          archive_write_client_close flushes the pending padded block through the
+                          write callback, calls the client closer and frees; status = worst *)
+Inductive free_mode := FreeSkips | FreeClientReleases | FreeClosesFilters.
+
+Definition api_step (fm : free_mode) (bs : nat) (a : api) (o : op) : api * list inv * Z :=
   match o with
   | OHeader =>
     match a_state a with
@@ -269,27 +276,31 @@ Definition api_step (fc : bool) (bs : nat) (a : api) (o : op) : api * list inv *
     end
   | OClose => api_close bs a
   | OFree =>
-    (* _archive_write_free: close unless the state is FATAL; then filters are freed.
-       Unless archive_write_client_free releases f->data ([fc]), a client filter that is still
-       open at this point leaves its state and block buffer allocated and client_closer uncalled *)
+    (* _archive_write_free: archive_write_close unless the state is FATAL; in state FATAL see
+       [free_mode]; then format_free (OK) and the filters are freed *)
     match a_state a with
     | SFatal =>
-      if fc && a_fopen a then
-        (mkApi SFatal false (a_buf a) (a_bibl a) (a_entries a) (S (a_closer a))
-               (a_leaked a) (a_cb a), [], ARCHIVE_OK)
-      else
+      match fm with
+      | FreeClosesFilters => api_close_core bs a
+      | FreeClientReleases =>
+        if a_fopen a then
+          (mkApi SFatal false (a_buf a) (a_bibl a) (a_entries a) (S (a_closer a))
+                 (a_leaked a) (a_cb a), [], ARCHIVE_OK)
+        else (a, [], ARCHIVE_OK)
+      | FreeSkips =>
         (mkApi SFatal false (a_buf a) (a_bibl a) (a_entries a) (a_closer a)
                (a_leaked a || a_fopen a) (a_cb a), [], ARCHIVE_OK)
+      end
     | _ => api_close bs a
     end
   end.
 
-Fixpoint api_run (fc : bool) (bs : nat) (a : api) (ops : list op) : api * list (api * list inv * Z) :=
+Fixpoint api_run (fm : free_mode) (bs : nat) (a : api) (ops : list op) : api * list (api * list inv * Z) :=
   match ops with
   | [] => (a, [])
   | o :: os =>
-    let '(a1, tr, st) := api_step fc bs a o in
-    let '(a2, res) := api_run fc bs a1 os in
+    let '(a1, tr, st) := api_step fm bs a o in
+    let '(a2, res) := api_run fm bs a1 os in
     (a2, (a1, tr, st) :: res)
   end.
 
